@@ -153,6 +153,17 @@ func genWorldKeyed(src *choice.Src, o WOpts, keySeed uint64) *World {
 	return w
 }
 
+// matchedByAny: some pattern matches the path (the world model must know, not guess, which patterns
+// pick a planted entry up).
+func matchedByAny(patterns []string, path string) bool {
+	for _, p := range patterns {
+		if ok, err := filepath.Match(filepath.Clean(p), filepath.Clean(path)); err == nil && ok {
+			return true
+		}
+	}
+	return false
+}
+
 // layoutWorld splits cfg over files and draws the -i patterns.
 func layoutWorld(src *choice.Src, w *World, cfg *gen.Cfg, o WOpts, post []postMut, keySeed uint64) {
 	nfiles := src.Range("nfiles", 1, 4)
@@ -244,13 +255,13 @@ func layoutWorld(src *choice.Src, w *World, cfg *gen.Cfg, o WOpts, post []postMu
 	switch src.Draw("layoutfaultk", 11) {
 	case 9: // a dangling symbolic link among the matches of a pattern that also matches good files
 		w.Files = append(w.Files, InFile{Path: filepath.Dir(first) + "/05_dangling.yaml", Kind: "dangling-link"})
-		if !strings.ContainsAny(strings.Join(w.Patterns, " "), "*?[") {
+		if !matchedByAny(w.Patterns, filepath.Dir(first)+"/05_dangling.yaml") {
 			w.Patterns = append(w.Patterns, filepath.Dir(first)+"/05_dangling.yaml")
 		}
 		w.Class = "env:input-dangling-link"
 	case 10: // a directory among the matches of a glob
 		w.Dirs = append(w.Dirs, filepath.Dir(first)+"/07_subdir.yaml")
-		if !strings.ContainsAny(strings.Join(w.Patterns, " "), "*?[") {
+		if !matchedByAny(w.Patterns, filepath.Dir(first)+"/07_subdir.yaml") {
 			w.Patterns = append(w.Patterns, filepath.Dir(first)+"/07_subdir.yaml")
 		}
 		w.Class = "env:input-is-dir"
